@@ -280,6 +280,14 @@ func judge(c faultCase, p prep, o cli.Outcome) harness.Result {
 	}
 	var ce *modbus.ClientError
 	isCE := errors.As(o.Err, &ce)
+	if rt := time.Duration(p.sc.ReadTimeoutMs) * time.Millisecond; isCE && rt > 0 && o.Elapsed >= rt && ce.Err != nil && ce.Err.Error() == "total read timeout exceeded" {
+		switch c.Fault {
+		case "ioerr", "ioerr-with-bytes", "ioerr-timeout-typed", "oversize", "oversize-frame":
+			// the machine was so slow that the client's own total read timeout (tens of milliseconds) ran out before it got to the read
+			// that carries the fault: a classified error in bounded time all the same, and nothing can be said about the fault
+			return harness.Result{Labels: append(labels, "client-timed-out-before-it-saw-the-fault")}
+		}
+	}
 	switch c.Fault {
 	case "stall":
 		if !isCE {
@@ -671,6 +679,59 @@ var chkAgedFault = harness.Define("transport-fault-long-lived-client",
 		}
 		return c
 	}, runAgedFault)
+
+// pairCase: two clients in one program are independent: while a call on client A waits for a device that has gone silent (it ends
+// by A's read timeout, 1.2 s here), a call on ANOTHER client B that must fail at once - B is not connected, gets a nil request, or
+// an already cancelled context - does so at once and not when A's call ends.
+type pairCase struct {
+	KindA  string `json:"kind_a"`
+	KindB  string `json:"kind_b"`
+	FaultB string `json:"fault_b"` // not-connected | nil-request | cancel-before
+	Seed   uint64 `json:"seed"`
+}
+
+func runPair(c pairCase) harness.Result {
+	reqA := spec.Req{FC: 3, Unit: 1, Tx: 1, Addr: 10, Qty: 2}
+	doneA := make(chan cli.Outcome, 1)
+	go func() { doneA <- cli.Run(cli.Scenario{Kind: c.KindA, Req: reqA, ReadTimeoutMs: 1200}) }()
+	time.Sleep(100 * time.Millisecond) // A has written its request and is waiting
+	scB := cli.Scenario{Kind: c.KindB, Req: spec.Req{FC: 4, Unit: 2, Tx: 2, Addr: 20, Qty: 1}, ReadTimeoutMs: 1200}
+	switch c.FaultB {
+	case "not-connected":
+		scB.NotConnected = true
+	case "nil-request":
+		scB.NilRequest = true
+	default:
+		scB.CancelBefore = true
+	}
+	startB := time.Now()
+	oB := cli.Run(scB)
+	tookB := time.Since(startB)
+	oA := <-doneA
+	if oA.Hung || oA.Panic != nil || oB.Hung || oB.Panic != nil {
+		return harness.Fail("hung/panic: A hung=%v panic=%v, B hung=%v panic=%v", oA.Hung, oA.Panic, oB.Hung, oB.Panic)
+	}
+	if oB.Err == nil {
+		return harness.Fail("client B (%s, %s) reported success", c.KindB, c.FaultB)
+	}
+	if oA.Elapsed < 900*time.Millisecond {
+		// A ended early for some reason: nothing can be said about B having waited for it
+		return harness.Result{Labels: []string{"first-client-ended-early"}}
+	}
+	if tookB > 600*time.Millisecond {
+		return harness.Fail("a call on client B (%s, %s: must fail at once) took %v while a call on another client A (%s) was waiting %v for its silent device: the clients are not independent", c.KindB, c.FaultB, tookB, c.KindA, oA.Elapsed)
+	}
+	return harness.Result{NonTrivial: true, Labels: []string{"two-clients", "b:" + c.FaultB}}
+}
+
+var chkPair = harness.Define("independent-clients",
+	func(t *rapid.T) pairCase {
+		kinds := []string{cli.TCP, cli.RTUNet, cli.Serial}
+		return pairCase{KindA: rapid.SampledFrom(kinds).Draw(t, "kind_a"), KindB: rapid.SampledFrom(kinds).Draw(t, "kind_b"),
+			FaultB: rapid.SampledFrom([]string{"not-connected", "nil-request", "cancel-before"}).Draw(t, "fault_b"), Seed: rapid.Uint64().Draw(t, "seed")}
+	}, runPair)
+
+func TestIndependentClients(t *testing.T) { chkPair.Rapid(t, harness.Pick(2, 12)) }
 
 func TestRandom(t *testing.T) {
 	chkFault.Rapid(t, harness.Pick(1500, 40000))
